@@ -16,6 +16,8 @@ CONSTANTS M,         \* non-root changes 1..M
           MaxTs,     \* timestamps 1..MaxTs
           Classes,   \* payload classes used
           MaxBad,    \* at most this many changes of a class other than "ok"
+          FullCauses, \* graphs with at most this many such changes range over every refused single
+                     \* action (cause x author role); larger ones use one fixed cause per change id
           AllowDetached, \* TRUE: changes without any dependency (other than the root) are enumerated too
           Emit,      \* TRUE: print one CASE line per graph ...
           EmitMod    \* ... whose pseudo-hash is 0 modulo EmitMod (1: every graph)
@@ -59,6 +61,10 @@ InitGraphs ==
     /\ pc = "pick"
     /\ Quiescent
 
+\* The refused single action used for change c when the causes are not enumerated.
+DefaultRF(c) == CASE c = 1 -> "rf.editMissing.d" [] c = 2 -> "rf.redactMissing.g" [] c = 3 -> "rf.badTitle.d"
+                  [] c = 4 -> "rf.reactMissing.g" [] OTHER -> "rf.label.g"
+
 TgtChoices(k) ==
     IF \A c \in NonRoot : k[c] # "needs" THEN {[c \in NonRoot |-> Root]} ELSE [NonRoot -> Change]
 
@@ -66,6 +72,8 @@ Pick ==
     /\ pc = "pick"
     /\ \E k \in [NonRoot -> Classes] :
          /\ Cardinality({c \in NonRoot : k[c] # "ok"}) <= MaxBad
+         /\ (Cardinality({c \in NonRoot : k[c] # "ok"}) > FullCauses
+               => \A c \in NonRoot : k[c] \in RFClasses => k[c] = DefaultRF(c))
          /\ \E g \in TgtChoices(k) :
               /\ \A c \in NonRoot : IF k[c] = "needs" THEN g[c] \notin {Root, c} ELSE g[c] = Root
               /\ TgtOK(store.deps, k, g)
@@ -106,8 +114,11 @@ CaseOf(G) ==
         cls   |-> AsSeq(G.cls),
         tgt   |-> AsSeq(G.tgt),
         order |-> EvalOrder(G),
+        applied |-> v.applied,
         log   |-> v.log,
+        comments |-> v.comments,
         lww   |-> v.lww,
+        labels |-> v.labels,
         hist  |-> SetSeq(v.hist),
         tips  |-> SetSeq(v.tips),
         rej   |-> SetSeq(e.rejected)]
@@ -115,8 +126,11 @@ CaseOf(G) ==
 \* A deterministic pseudo-hash of a graph, to emit a spread-out sample of a large enumeration.
 RECURSIVE SumSet(_)
 SumSet(S) == IF S = {} THEN 0 ELSE LET x == CHOOSE x \in S : TRUE IN x + SumSet(S \ {x})
+RFSeq == <<"rf.redactMissing.d", "rf.redactMissing.g", "rf.editMissing.d", "rf.editMissing.g", "rf.reactMissing.d",
+           "rf.reactMissing.g", "rf.replyMissing.d", "rf.replyMissing.g", "rf.badTitle.d", "rf.badTitle.g", "rf.label.g">>
 ClsIdx(k) == CASE k = "ok" -> 0 [] k = "guest" -> 1 [] k = "needs" -> 2 [] k = "badSig" -> 3
-               [] k = "rejectFirst" -> 4 [] k = "rejectLater" -> 5 [] OTHER -> 6
+               [] k = "label" -> 4 [] k = "rejectLater" -> 5 [] k = "soft" -> 6
+               [] OTHER -> 7 + (CHOOSE i \in DOMAIN RFSeq : RFSeq[i] = k)
 HashOf(G) == SumSet({(c * c + 1) * (7 * G.ts[c] + 13 * ClsIdx(G.cls[c]) + 31 * SumSet({d + 1 : d \in G.deps[c]}) + 3 * G.tgt[c])
                      : c \in NonRoot})
 
